@@ -35,6 +35,11 @@ def run(ctx):
     except Exception as e:  # noqa: BLE001  (the fixed family could not even be declared on the tree under test)
         ctx.count("directed_positions_failed:" + type(e).__name__)
     batch = valcases.schema_batch(ctx, ctx.n(70, 500), customs=False)
+    if not ctx.quick():
+        # thorough: every third schema of the small scope, wrapped at random / at every position
+        from .. import smallscope
+        batch = batch + [(x, None) for x in smallscope.schemas()[::3]]
+        ctx.cov["smallscope_schemas"] = len(batch)
     cases = []
     for s, w in batch:
         ws = rebuild.wrap_random(s, ctx.rnd, prob=ctx.rnd.choice([0.2, 0.5, 1.0]))
